@@ -541,4 +541,356 @@ theorem roundtrip (enc : Enc) (lib : Lib) (max : Nat) (hrt : RoundTrips enc lib 
         unfold decompress
         simp [this]
 
+/-! ### Reference decoders -/
+
+/-- result is an error, or an array whose size satisfies `P`; never a panic -/
+def okSize {α : Type} (sz : α → Nat) (P : Nat → Prop) : R α → Prop
+  | .ok o => P (sz o)
+  | .err => True
+  | .panic => False
+
+theorem rd_eq {a : Arr} {i : Nat} (h : i < a.size) : rd a i = .ok a[i].toNat := by
+  simp [rd, h]
+
+theorem rdLE_ok (a : Arr) : ∀ (n i : Nat), i + n ≤ a.size → ∃ v, rdLE a i n = .ok v := by
+  intro n
+  induction n with
+  | zero => intro i _; exact ⟨0, rfl⟩
+  | succ n ih =>
+    intro i h
+    obtain ⟨v, hv⟩ := ih (i + 1) (by omega)
+    unfold rdLE
+    rw [rd_eq (by omega), hv]
+    exact ⟨_, rfl⟩
+
+theorem slice_ok {a : Arr} {lo hi : Nat} (h1 : lo ≤ hi) (h2 : hi ≤ a.size) :
+    slice a lo hi = .ok (a.extract lo hi) ∧ (a.extract lo hi).size = hi - lo := by
+  constructor
+  · simp [slice, h1, h2]
+  · rw [Array.size_extract]; omega
+
+theorem copyBack_ok : ∀ (n off : Nat) (out : Arr), 0 < off → off ≤ out.size →
+    ∃ o, copyBack n off out = .ok o ∧ o.size = out.size + n := by
+  intro n
+  induction n with
+  | zero => intro off out _ _; exact ⟨out, rfl, rfl⟩
+  | succ n ih =>
+    intro off out h0 h1
+    unfold copyBack
+    rw [dif_pos ⟨h0, h1⟩]
+    obtain ⟨o, ho, hs⟩ := ih off (out.push out[out.size - off]) h0 (by rw [Array.size_push]; omega)
+    exact ⟨o, ho, by rw [hs, Array.size_push]; omega⟩
+
+theorem lenExt_safe (a : Arr) : ∀ (fuel i acc : Nat), okSize (fun _ => 0) (fun _ => True) (lenExt a fuel i acc) := by
+  intro fuel
+  induction fuel with
+  | zero => intro i acc; simp [lenExt, okSize]
+  | succ n ih =>
+    intro i acc
+    unfold lenExt
+    split
+    · simp [okSize]
+    · rename_i h
+      rw [rd_eq (by omega)]
+      simp only
+      split
+      · simp [okSize]
+      · exact ih _ _
+
+theorem uvarintGo_safe (a : Arr) : ∀ (fuel i sh acc : Nat), okSize (fun _ => 0) (fun _ => True) (uvarintGo a fuel i sh acc) := by
+  intro fuel
+  induction fuel with
+  | zero => intro i sh acc; simp [uvarintGo, okSize]
+  | succ n ih =>
+    intro i sh acc
+    unfold uvarintGo
+    split
+    · simp [okSize]
+    · rename_i h
+      rw [rd_eq (by omega)]
+      simp only
+      split
+      · simp [okSize]
+      · exact ih _ _ _
+
+theorem snapLoop_safe (src : Arr) (dLen : Nat) : ∀ (fuel s : Nat) (out : Arr), out.size ≤ dLen →
+    okSize Array.size (· = dLen) (snapLoop src dLen fuel s out) := by
+  intro fuel
+  induction fuel with
+  | zero => intro s out _; simp [snapLoop, okSize]
+  | succ n ih =>
+    intro s out hle
+    unfold snapLoop
+    split
+    · split
+      · rename_i h; simpa [okSize] using h
+      · simp [okSize]
+    · rename_i hs
+      rw [rd_eq (by omega)]
+      simp only
+      generalize src[s].toNat = tag
+      by_cases ht : tag % 4 = 0
+      · rw [if_pos ht]
+        generalize (if tag / 4 < 60 then 0 else tag / 4 - 59) = nb
+        by_cases hb : s + 1 + nb > src.size
+        · rw [if_pos hb]; simp [okSize]
+        · rw [if_neg hb]
+          obtain ⟨v, hv⟩ := rdLE_ok src nb (s + 1) (by omega)
+          rw [hv]
+          simp only
+          generalize ((if tag / 4 < 60 then tag / 4 else v) + 1) = len
+          by_cases hl : len > dLen - out.size ∨ len > src.size - (s + 1 + nb)
+          · rw [if_pos hl]; simp [okSize]
+          · rw [if_neg hl]
+            have sl := @slice_ok src (s + 1 + nb) (s + 1 + nb + len) (by omega) (by omega)
+            rw [sl.1]
+            simp only
+            apply ih
+            rw [Array.size_append, sl.2]
+            omega
+      · rw [if_neg ht]
+        generalize (if tag % 4 = 1 then 1 else if tag % 4 = 2 then 2 else 4) = nb
+        by_cases hb : s + 1 + nb > src.size
+        · rw [if_pos hb]; simp [okSize]
+        · rw [if_neg hb]
+          obtain ⟨v, hv⟩ := rdLE_ok src nb (s + 1) (by omega)
+          rw [hv]
+          simp only
+          generalize (if tag % 4 = 1 then 4 + tag / 4 % 8 else 1 + tag / 4) = len
+          generalize (if tag % 4 = 1 then tag / 32 * 256 + v else v) = off
+          by_cases hl : off = 0 ∨ off > out.size ∨ len > dLen - out.size
+          · rw [if_pos hl]; simp [okSize]
+          · rw [if_neg hl]
+            obtain ⟨o, ho, hsz⟩ := copyBack_ok len off out (by omega) (by omega)
+            rw [ho]
+            simp only
+            apply ih
+            omega
+
+theorem snappyLen_ne_panic (src : Arr) : snappyLen src ≠ .panic := by
+  unfold snappyLen
+  have := uvarintGo_safe src 10 0 0 0
+  cases h : uvarintGo src 10 0 0 0 with
+  | ok r => obtain ⟨v, n⟩ := r; simp only; split <;> simp
+  | err => simp
+  | panic => rw [h] at this; exact absurd this (by simp [okSize])
+
+/-- The reference snappy decoder never reads out of range, and what it returns has exactly the length the
+block's header declares (which is at most `limit`). -/
+theorem snappyDecode_safe (limit : Nat) (src : Arr) :
+    snappyDecode limit src ≠ .panic ∧
+    ∀ out, snappyDecode limit src = .ok out → (∃ n, snappyLen src = .ok (out.size, n)) ∧ out.size ≤ limit := by
+  unfold snappyDecode
+  cases h : snappyLen src with
+  | err => simp
+  | panic => exact absurd h (snappyLen_ne_panic src)
+  | ok r =>
+    obtain ⟨dLen, n⟩ := r
+    simp only
+    by_cases hl : dLen > limit
+    · rw [if_pos hl]; simp
+    · rw [if_neg hl]
+      have := snapLoop_safe src dLen (src.size + 1) n (Array.emptyWithCapacity dLen) (by simp)
+      cases hr : snapLoop src dLen (src.size + 1) n (Array.emptyWithCapacity dLen) with
+      | err => simp
+      | panic => rw [hr] at this; exact absurd this (by simp [okSize])
+      | ok out =>
+        rw [hr] at this
+        simp only [okSize] at this
+        refine ⟨by simp, fun o ho => ?_⟩
+        cases ho
+        exact ⟨⟨n, by rw [this]⟩, by omega⟩
+
+theorem lz4Seqs_safe (blk : Arr) (cap base : Nat) : ∀ (fuel s : Nat) (out : Arr), out.size ≤ cap →
+    okSize Array.size (· ≤ cap) (lz4Seqs blk cap base fuel s out) := by
+  intro fuel
+  induction fuel with
+  | zero => intro s out _; simp [lz4Seqs, okSize]
+  | succ n ih =>
+    intro s out hle
+    unfold lz4Seqs
+    by_cases hs : s ≥ blk.size
+    · rw [if_pos hs]; simp [okSize]
+    · rw [if_neg hs, rd_eq (by omega)]
+      simp only
+      generalize blk[s].toNat = tok
+      generalize hq : (if tok / 16 = 15 then lenExt blk blk.size (s + 1) 15 else R.ok (tok / 16, s + 1)) = q
+      have hqs : okSize (fun _ => 0) (fun _ => True) q := by
+        rw [← hq]; split
+        · exact lenExt_safe _ _ _ _
+        · simp [okSize]
+      cases q with
+      | err => simp [okSize]
+      | panic => simp [okSize] at hqs
+      | ok r =>
+        obtain ⟨ll, s1⟩ := r
+        simp only
+        by_cases hg : s1 > blk.size ∨ ll > blk.size - s1 ∨ ll > cap - out.size
+        · rw [if_pos hg]; simp [okSize]
+        · rw [if_neg hg]
+          have sl := @slice_ok blk s1 (s1 + ll) (by omega) (by omega)
+          rw [sl.1]
+          simp only
+          have hsz : (out ++ blk.extract s1 (s1 + ll)).size = out.size + ll := by rw [Array.size_append, sl.2]; omega
+          by_cases he : s1 + ll = blk.size
+          · rw [if_pos he]; simp only [okSize]; omega
+          · rw [if_neg he]
+            by_cases h2 : s1 + ll + 2 > blk.size
+            · rw [if_pos h2]; simp [okSize]
+            · rw [if_neg h2]
+              obtain ⟨off, hoff⟩ := rdLE_ok blk 2 (s1 + ll) (by omega)
+              rw [hoff]
+              simp only
+              generalize hq2 : (if tok % 16 = 15 then lenExt blk blk.size (s1 + ll + 2) 19 else R.ok (tok % 16 + 4, s1 + ll + 2)) = q2
+              have hqs2 : okSize (fun _ => 0) (fun _ => True) q2 := by
+                rw [← hq2]; split
+                · exact lenExt_safe _ _ _ _
+                · simp [okSize]
+              cases q2 with
+              | err => simp [okSize]
+              | panic => simp [okSize] at hqs2
+              | ok r2 =>
+                obtain ⟨ml, s3⟩ := r2
+                simp only
+                by_cases hm : off = 0 ∨ off > (out ++ blk.extract s1 (s1 + ll)).size - base ∨ ml > cap - (out ++ blk.extract s1 (s1 + ll)).size
+                · rw [if_pos hm]; simp [okSize]
+                · rw [if_neg hm]
+                  obtain ⟨o, ho, hos⟩ := copyBack_ok ml off (out ++ blk.extract s1 (s1 + ll)) (by omega) (by omega)
+                  rw [ho]
+                  simp only
+                  apply ih
+                  omega
+
+theorem lz4Blocks_safe (xxh : Arr → Nat) (src : Arr) (limit blockMax : Nat) (indep bchk : Bool) :
+    ∀ (fuel p : Nat) (out : Arr), out.size ≤ limit →
+    okSize (fun r : Arr × Nat => r.1.size) (· ≤ limit) (lz4Blocks xxh src limit blockMax indep bchk fuel p out) := by
+  intro fuel
+  induction fuel with
+  | zero => intro p out _; simp [lz4Blocks, okSize]
+  | succ n ih =>
+    intro p out hle
+    unfold lz4Blocks
+    by_cases hp : p + 4 > src.size
+    · rw [if_pos hp]; simp [okSize]
+    · rw [if_neg hp]
+      obtain ⟨w, hw⟩ := rdLE_ok src 4 p (by omega)
+      rw [hw]
+      simp only
+      by_cases hw0 : w = 0
+      · rw [if_pos hw0]; simpa [okSize] using hle
+      · rw [if_neg hw0]
+        generalize w % 2147483648 = nn
+        by_cases hn : nn > blockMax ∨ nn > src.size - (p + 4)
+        · rw [if_pos hn]; simp [okSize]
+        · rw [if_neg hn]
+          have sl := @slice_ok src (p + 4) (p + 4 + nn) (by omega) (by omega)
+          rw [sl.1]
+          simp only
+          by_cases hc : (bchk && decide (p + 4 + nn + 4 > src.size)) = true
+          · rw [if_pos hc]; simp [okSize]
+          · rw [if_neg hc]
+            generalize hq : (if bchk = true then rdLE src (p + 4 + nn) 4 else R.ok 0) = q
+            have hqs : q ≠ .panic := by
+              rw [← hq]
+              split
+              · rename_i hb
+                have : p + 4 + nn + 4 ≤ src.size := by
+                  simp [hb] at hc; omega
+                obtain ⟨v, hv⟩ := rdLE_ok src 4 (p + 4 + nn) (by omega)
+                rw [hv]; simp
+              · simp
+            cases q with
+            | err => simp [okSize]
+            | panic => exact absurd rfl hqs
+            | ok sum =>
+              simp only
+              split
+              · simp [okSize]
+              · split
+                · split
+                  · simp [okSize]
+                  · rename_i hlim
+                    apply ih
+                    rw [Array.size_append, sl.2]
+                    omega
+                · have := lz4Seqs_safe (src.extract (p + 4) (p + 4 + nn)) (min limit (out.size + blockMax))
+                    (if indep = true then out.size else 0) ((src.extract (p + 4) (p + 4 + nn)).size + 1) 0 out (by omega)
+                  cases hr : lz4Seqs (src.extract (p + 4) (p + 4 + nn)) (min limit (out.size + blockMax))
+                    (if indep = true then out.size else 0) ((src.extract (p + 4) (p + 4 + nn)).size + 1) 0 out with
+                  | err => simp [okSize]
+                  | panic => rw [hr] at this; simp [okSize] at this
+                  | ok out' =>
+                    rw [hr] at this
+                    simp only [okSize] at this
+                    simp only
+                    apply ih
+                    omega
+
+/-- The reference LZ4 frame decoder never reads out of range and never returns more than `limit` bytes. -/
+theorem lz4Frame_safe (xxh : Arr → Nat) (limit : Nat) (src : Arr) :
+    okSize Array.size (· ≤ limit) (lz4Frame xxh limit src) := by
+  unfold lz4Frame
+  by_cases h7 : src.size < 7
+  · rw [if_pos h7]; simp [okSize]
+  · rw [if_neg h7]
+    obtain ⟨magic, hm⟩ := rdLE_ok src 4 0 (by omega)
+    rw [hm, rd_eq (by omega : 4 < src.size), rd_eq (by omega : 5 < src.size)]
+    simp only
+    generalize src[4].toNat = flg
+    generalize src[5].toNat = bd
+    split
+    · simp [okSize]
+    · split
+      · simp [okSize]
+      · split
+        · simp [okSize]
+        · generalize hhl : (2 + (if (flg / 8 % 2 = 1) then 8 else 0) + (if (flg % 2 = 1) then 4 else 0)) = hlen
+          generalize (if bd / 16 % 8 = 4 then 65536 else if bd / 16 % 8 = 5 then 262144 else if bd / 16 % 8 = 6 then 1048576 else 4194304) = bm
+          generalize decide (flg / 32 % 2 = 1) = indep
+          generalize decide (flg / 16 % 2 = 1) = bchk
+          by_cases hh : 4 + hlen + 1 > src.size
+          · rw [if_pos hh]; simp [okSize]
+          · rw [if_neg hh]
+            have sl := @slice_ok src 4 (4 + hlen) (by omega) (by omega)
+            rw [sl.1, rd_eq (by omega : 4 + hlen < src.size)]
+            generalize hq : (if (flg / 8 % 2 = 1) then rdLE src 6 8 else R.ok 0) = q
+            have hqs : q ≠ .panic := by
+              rw [← hq]; split
+              · rename_i hcs
+                have : hlen ≥ 10 := by rw [← hhl, if_pos hcs]; omega
+                obtain ⟨v, hv⟩ := rdLE_ok src 8 6 (by omega)
+                rw [hv]; simp
+              · simp
+            cases q with
+            | err => simp [okSize]
+            | panic => exact absurd rfl hqs
+            | ok csz =>
+              simp only
+              split
+              · simp [okSize]
+              · have hb := lz4Blocks_safe xxh src limit bm indep bchk (src.size + 1) (4 + hlen + 1) (Array.emptyWithCapacity 0) (by simp)
+                cases hr : lz4Blocks xxh src limit bm indep bchk (src.size + 1) (4 + hlen + 1) (Array.emptyWithCapacity 0) with
+                | err => simp [okSize]
+                | panic => rw [hr] at hb; simp [okSize] at hb
+                | ok r =>
+                  obtain ⟨out, p⟩ := r
+                  rw [hr] at hb
+                  simp only [okSize] at hb
+                  simp only
+                  split
+                  · simp [okSize]
+                  · split
+                    · split
+                      · simp [okSize]
+                      · rename_i hp
+                        obtain ⟨v, hv⟩ := rdLE_ok src 4 p (by omega)
+                        rw [hv]
+                        simp only
+                        split
+                        · simpa [okSize] using hb
+                        · simp [okSize]
+                    · split
+                      · simpa [okSize] using hb
+                      · simp [okSize]
+
 end Proof.C19
